@@ -292,9 +292,22 @@ func immutableHistory(run *evid.Run, h int, wrapper bool) {
 				op = pressure(rng, u, m, mo)
 			}
 		}
+		// now and then the caller has already given up when a mutating call is made: whatever the call then
+		// answers, the protections hold (what was observed is re-observed below with a live context)
+		abandoned := i >= len(scripted) && rng.IntN(6) == 0 && (op.Kind == "PushManifest" || strings.HasPrefix(op.Kind, "Delete") || op.Kind == "MountBlob")
+		live := env.Ctx
+		if abandoned {
+			cctx, cancel := context.WithCancel(live)
+			cancel()
+			env.Ctx = cctx
+			run.Count(what+"/calls_with_cancelled_context", 1)
+			mo.hist = append(mo.hist, "(next call made with a cancelled context)")
+		}
 		mo.hist = append(mo.hist, op.String())
 		var out *model.Outcome
-		if !run.Case(what+"/total", map[string]any{"op": op.String()}, func() { out = env.Exec(op) }) {
+		okCase := run.Case(what+"/total", map[string]any{"op": op.String()}, func() { out = env.Exec(op) })
+		env.Ctx = live
+		if !okCase {
 			return
 		}
 		run.Count(what+"/calls", 1)
